@@ -13,7 +13,7 @@ open Logg
     members with no early exit; `printOut` performs tell → one Write → (maybe) Warn. -/
 theorem fanout_facts :
     Gen.lwsWriteLoops = 1 ∧ Gen.lwsWriteEarlyExit = false ∧ Gen.writesPerPrintOut = 1 ∧
-    Gen.printOutSeq = ["tell", "write", "warn"] := by decide
+    Gen.printOutSeq = ["tell", "write", "warn"] ∧ Gen.printOutExitsBeforeWrite = 0 := by decide
 
 /-- The reaction condition, as the code says it now: a failure, and the record is not a warning. -/
 theorem warnOnFailure_spec (failed : Bool) (lvl : Int) :
